@@ -360,6 +360,78 @@ func parkedInStackLocks(dump string) (n int, where []string) {
 	return
 }
 
+var goroutineHdr = regexp.MustCompile(`(?m)^goroutine (\d+) \[([^\],]+)[^\]]*\]:$`)
+
+// lockState summarises a goroutine dump: ids of goroutines parked in a mutex with a spine-go frame
+// on their stack, and whether any goroutine with a spine-go frame is able to run.
+func lockState(dump string) (parked map[string]string, progressing bool) {
+	parked = map[string]string{}
+	blocks := strings.Split(dump, "\n\n")
+	for _, b := range blocks {
+		m := goroutineHdr.FindStringSubmatch(b)
+		if m == nil {
+			continue
+		}
+		frames := world.SpineFrames(b)
+		if len(frames) == 0 {
+			continue
+		}
+		switch {
+		case strings.HasPrefix(m[2], "sync.Mutex.Lock"), strings.HasPrefix(m[2], "sync.RWMutex"):
+			parked[m[1]] = frames[0]
+		case m[2] == "running", m[2] == "runnable", m[2] == "syscall", m[2] == "sleep", m[2] == "IO wait":
+			progressing = true
+		}
+	}
+	return
+}
+
+// awaitOrDiagnose waits for done. After 60 s it looks at the goroutines twice, 3 s apart: a deadlock
+// is reported only if the same >= 2 goroutines are parked in locks inside spine-go both times and
+// no goroutine inside spine-go can run. Otherwise the workload is merely slow: it keeps waiting (up
+// to 10 minutes in total, then the run is inconclusive).
+func awaitOrDiagnose(done <-chan struct{}) (sig string, detail string, inconclusive bool) {
+	select {
+	case <-done:
+		return "", "", false
+	case <-time.After(60 * time.Second):
+	}
+	deadline := time.Now().Add(9 * time.Minute)
+	for {
+		d1 := dumpAll()
+		select {
+		case <-done:
+			return "", "", false
+		case <-time.After(3 * time.Second):
+		}
+		d2 := dumpAll()
+		p1, run1 := lockState(d1)
+		p2, run2 := lockState(d2)
+		same := len(p1) >= 2 && len(p1) == len(p2)
+		for id := range p1 {
+			if _, ok := p2[id]; !ok {
+				same = false
+			}
+		}
+		if same && !run1 && !run2 {
+			var where []string
+			for _, f := range p2 {
+				where = append(where, f)
+			}
+			sort.Strings(where)
+			return "C17/deadlock/" + strings.Join(uniq(where), "+"), fmt.Sprintf("the workload did not finish within 60 s; the same %d goroutines wait for locks inside spine-go in two dumps 3 s apart and no goroutine inside spine-go can run: %v\n%s", len(p2), where, d2), false
+		}
+		if time.Now().After(deadline) {
+			return "", d2, true
+		}
+		select {
+		case <-done:
+			return "", "", false
+		case <-time.After(10 * time.Second):
+		}
+	}
+}
+
 func TestWorkloads(t *testing.T) {
 	rapid.Check(t, world.Prop(func(t *rapid.T) {
 		nPeers := rapid.IntRange(2, 3).Draw(t, "peers")
@@ -422,19 +494,15 @@ func TestWorkloads(t *testing.T) {
 		}
 		done := make(chan struct{})
 		go func() { wg.Wait(); close(done) }()
+		began := time.Now()
 		close(start)
-		select {
-		case <-done:
-		case <-time.After(60 * time.Second):
-			dump := dumpAll()
-			n, where := parkedInStackLocks(dump)
-			if n >= 2 {
-				sort.Strings(where)
-				otherFailure.Store(true)
-				world.Fail(t, "C17/deadlock/"+strings.Join(uniq(where), "+"), "the workload did not finish within 60 s; %d goroutines wait for locks inside spine-go: %v\n%s", n, where, dump)
-			}
+		defer func() { noteDuration(time.Since(began)) }()
+		if sig, detail, inconclusive := awaitOrDiagnose(done); sig != "" {
 			otherFailure.Store(true)
-			t.Fatalf("inconclusive: workload did not finish within 60 s without evidence of a lock cycle inside spine-go\n%s", dump)
+			world.Fail(t, sig, "%s", detail)
+		} else if inconclusive {
+			otherFailure.Store(true)
+			t.Fatalf("inconclusive: workload did not finish within 10 minutes without evidence of a lock cycle inside spine-go\n%s", detail)
 		}
 		// let timers and asynchronous handlers finish, stop the heartbeat
 		e.w.Teardown()
@@ -465,6 +533,30 @@ func TestWorkloads(t *testing.T) {
 			world.Sample(map[string]any{"connections": nPeers, "application_goroutines": nApp, "ops_per_goroutine": size, "operation_kinds": kinds})
 		}
 	}))
+}
+
+var (
+	durMu  sync.Mutex
+	durMax time.Duration
+)
+
+func noteDuration(d time.Duration) {
+	durMu.Lock()
+	if d > durMax {
+		durMax = d
+		world.SetExtra("slowest_workload_ms", d.Milliseconds())
+	}
+	durMu.Unlock()
+	switch {
+	case d > 20*time.Second:
+		world.Label("workload-duration/>20s")
+	case d > 5*time.Second:
+		world.Label("workload-duration/5-20s")
+	case d > time.Second:
+		world.Label("workload-duration/1-5s")
+	default:
+		world.Label("workload-duration/<1s")
+	}
 }
 
 func uniq(l []string) []string {
@@ -569,9 +661,10 @@ func classifyRaces() int {
 }
 
 // TestStorms: focused free-running storms on windows the random workloads hit rarely.
-//   approvals-vs-disconnects: approvals (and running approval timers) of one connection against
-//   repeated removal and set-up of another connection (lock nesting of the approval maps);
-//   entities-vs-discovery: AddEntity / RemoveEntity against discovery reads and (un)subscriptions.
+//
+//	approvals-vs-disconnects: approvals (and running approval timers) of one connection against
+//	repeated removal and set-up of another connection (lock nesting of the approval maps);
+//	entities-vs-discovery: AddEntity / RemoveEntity against discovery reads and (un)subscriptions.
 func TestStorms(t *testing.T) {
 	rounds := world.EnvInt("VERIF_ROUNDS", 6)
 	run := func(name string, body func(e *env, stop *atomic.Bool) []func()) {
@@ -588,19 +681,14 @@ func TestStorms(t *testing.T) {
 			done := make(chan struct{})
 			go func() { wg.Wait(); close(done) }()
 			close(start)
-			select {
-			case <-done:
-			case <-time.After(60 * time.Second):
-				dump := dumpAll()
-				n, where := parkedInStackLocks(dump)
+			if sig, detail, inconclusive := awaitOrDiagnose(done); sig != "" {
 				otherFailure.Store(true)
-				if n >= 2 {
-					sort.Strings(where)
-					fmt.Printf("VERIF-FAIL sig=C17/deadlock/%s :: storm %s did not finish within 60 s; %d goroutines wait for locks inside spine-go: %v\n%s\n", strings.Join(uniq(where), "+"), name, n, where, dump)
-					world.FlushStats()
-					os.Exit(1)
-				}
-				t.Fatalf("inconclusive: storm %s did not finish within 60 s without evidence of a lock cycle\n%s", name, dump)
+				fmt.Printf("VERIF-FAIL sig=%s :: storm %s: %s\n", sig, name, detail)
+				world.FlushStats()
+				os.Exit(1)
+			} else if inconclusive {
+				otherFailure.Store(true)
+				t.Fatalf("inconclusive: storm %s did not finish within 10 minutes without evidence of a lock cycle\n%s", name, detail)
 			}
 			e.w.Teardown()
 			time.Sleep(20 * time.Millisecond)
